@@ -1,5 +1,6 @@
 import DashLive.Model.Auth
 import DashLive.Model.Csrf
+import DashLive.Model.Life
 /-!
 Helper lemmas for C15: guard chains (`DashLive.Auth`) and the CSRF state machine
 (`DashLive.Csrf`).  Core tactics only.
@@ -272,3 +273,243 @@ theorem acceptedCount_zero_of_used (c : Cfg) (t : Str) :
     | request => simp [Ev.token?]
 
 end DashLive.Csrf
+
+/-! ## credential lifecycle -/
+namespace DashLive.Life
+
+theorem mem_revokeAll {rows : List Row} {u : Nat} {r : Row} (h : r ∈ revokeAll rows u) :
+    ∃ r0 ∈ rows, r.jti = r0.jti ∧ r.owner = r0.owner ∧ r.typ = r0.typ ∧ r.expires = r0.expires ∧
+      (r0.revoked = true → r.revoked = true) ∧ (r0.owner = u → r.revoked = true) := by
+  unfold revokeAll at h
+  obtain ⟨r0, h0, rfl⟩ := List.mem_map.1 h
+  refine ⟨r0, h0, ?_⟩
+  by_cases ho : r0.owner = u <;> simp [ho]
+
+theorem mem_revokeAccess {rows : List Row} {j u : Nat} {r : Row} (h : r ∈ revokeAccess rows j u) :
+    (r = { jti := j, owner := u, typ := .access, expires := none, revoked := true }) ∨
+    ∃ r0 ∈ rows, r.jti = r0.jti ∧ r.owner = r0.owner ∧ r.typ = r0.typ ∧ r.expires = r0.expires ∧
+      (r0.revoked = true → r.revoked = true) ∧ (r0.jti = j → r0.typ = .access → r.revoked = true) := by
+  unfold revokeAccess at h
+  split at h
+  · obtain ⟨r0, h0, rfl⟩ := List.mem_map.1 h
+    right
+    refine ⟨r0, h0, ?_⟩
+    by_cases hc : (r0.jti == j && r0.typ == TokType.access) = true
+    · simp [hc]
+    · simp only [hc]
+      simp only [Bool.and_eq_true, beq_iff_eq, not_and] at hc
+      refine ⟨rfl, rfl, rfl, rfl, id, ?_⟩
+      intro h1 h2
+      exact absurd h2 (hc h1)
+  · rcases List.mem_cons.1 h with rfl | h'
+    · left; rfl
+    · right
+      exact ⟨r, h', rfl, rfl, rfl, rfl, id, by
+        intro h1 h2
+        rename_i hn
+        exact absurd (List.any_eq_true.2 ⟨r, h', by simp [h1, h2]⟩) hn⟩
+
+
+theorem step_nextJti_mono (st : St) (e : Ev) : st.nextJti ≤ (step st e).1.nextJti := by
+  cases e <;> simp only [step] <;> (try split) <;> simp <;> omega
+
+theorem step_users_subset (st : St) (e : Ev) (u : Nat) (h : (step st e).1.users.contains u = true) :
+    st.users.contains u = true := by
+  cases e <;> simp only [step] at h <;> (try split at h) <;> simp_all
+
+/-- where the rows after a step come from: an old row (revocation only ever switched on), the
+refresh row of a new login (fresh `jti`), or an access revocation row -/
+theorem step_rows (st : St) (e : Ev) (r : Row) (h : r ∈ (step st e).1.rows) :
+    (∃ r0 ∈ st.rows, r.jti = r0.jti ∧ r.owner = r0.owner ∧ r.typ = r0.typ ∧ r.expires = r0.expires ∧
+        (r0.revoked = true → r.revoked = true)) ∨
+    (r.typ = .refresh ∧ st.nextJti ≤ r.jti) ∨
+    (r.typ = .access ∧ r.revoked = true ∧ r.expires = none) := by
+  have old : r ∈ st.rows → (∃ r0 ∈ st.rows, r.jti = r0.jti ∧ r.owner = r0.owner ∧ r.typ = r0.typ ∧
+      r.expires = r0.expires ∧ (r0.revoked = true → r.revoked = true)) :=
+    fun hr => ⟨r, hr, rfl, rfl, rfl, rfl, id⟩
+  cases e with
+  | login u =>
+    simp only [step] at h
+    split at h
+    · rcases List.mem_cons.1 h with rfl | h'
+      · right; left; exact ⟨rfl, by simp⟩
+      · left; exact old h'
+    · left; exact old h
+  | refreshAccess t =>
+    simp only [step] at h
+    split at h <;> exact Or.inl (old h)
+  | apiLogout t =>
+    simp only [step] at h
+    split at h
+    · rcases mem_revokeAccess h with rfl | ⟨r1, h1, e1, e2, e3, e4, e5, _⟩
+      · right; right; exact ⟨rfl, rfl, rfl⟩
+      · obtain ⟨r0, h0, f1, f2, f3, f4, f5, _⟩ := mem_revokeAll h1
+        left
+        exact ⟨r0, h0, e1.trans f1, e2.trans f2, e3.trans f3, e4.trans f4, fun hr => e5 (f5 hr)⟩
+    · left; exact old h
+  | htmlLogout c =>
+    simp only [step] at h
+    split at h
+    · obtain ⟨r0, h0, f1, f2, f3, f4, f5, _⟩ := mem_revokeAll h
+      left; exact ⟨r0, h0, f1, f2, f3, f4, f5⟩
+    · left; exact old h
+  | deleteUser u =>
+    simp only [step] at h
+    left; exact old (List.mem_filter.1 h).1
+  | restart =>
+    simp only [step] at h
+    left; exact old (List.mem_filter.1 h).1
+  | tick n => left; exact old h
+
+/-- a token none of whose rows (of its own type) is un-revoked, and that has a row or is a
+refresh token, is refused -/
+theorem not_accepted_of_rows_revoked (st : St) (t : Tok) (want : TokType)
+    (hall : ∀ r ∈ st.rows, r.jti = t.jti → r.typ = t.typ → r.revoked = true)
+    (hex : t.typ = .refresh ∨ ∃ r ∈ st.rows, r.jti = t.jti ∧ r.typ = t.typ) :
+    tokAccepted st t want = false := by
+  have hrev : isRevoked st t = true := by
+    unfold isRevoked
+    cases hf : st.rows.find? (fun r => r.jti == t.jti && r.typ == t.typ) with
+    | some r =>
+      have hm := List.mem_of_find?_eq_some hf
+      have hp := List.find?_some hf
+      simp only [Bool.and_eq_true, beq_iff_eq] at hp
+      exact hall r hm hp.1 hp.2
+    | none =>
+      rcases hex with hty | ⟨r, hr, h1, h2⟩
+      · simp [hty]
+      · have := List.find?_eq_none.1 hf r hr
+        simp [h1, h2] at this
+  unfold tokAccepted
+  simp [hrev]
+
+
+/-- invariant behind the logout theorems: every refresh row with the token's `jti` is revoked,
+and the `jti` is older than every future one -/
+def Voided (s : St) (t' : Tok) : Prop :=
+  t'.jti < s.nextJti ∧ ∀ r ∈ s.rows, r.jti = t'.jti → r.typ = .refresh → r.revoked = true
+
+theorem voided_step (s : St) (t' : Tok) (e : Ev) (h : Voided s t') : Voided (step s e).1 t' := by
+  refine ⟨Nat.lt_of_lt_of_le h.1 (step_nextJti_mono s e), ?_⟩
+  intro r hr hj ht
+  rcases step_rows s e r hr with ⟨r0, h0, e1, _, e3, _, e5⟩ | ⟨_, hn⟩ | ⟨ha, _, _⟩
+  · exact e5 (h.2 r0 h0 (e1 ▸ hj) (e3 ▸ ht))
+  · have := h.1; omega
+  · rw [ha] at ht; cases ht
+
+theorem voided_final (t' : Tok) : ∀ (evs : List Ev) (s : St), Voided s t' → Voided (final s evs) t' := by
+  intro evs
+  induction evs with
+  | nil => intro s h; exact h
+  | cons e es ih => intro s h; exact ih _ (voided_step s t' e h)
+
+theorem voided_refused (s : St) (t' : Tok) (hty : t'.typ = .refresh) (h : Voided s t') (want : TokType) :
+    tokAccepted s t' want = false :=
+  not_accepted_of_rows_revoked s t' want (fun r hr hj ht => h.2 r hr hj (ht.trans hty)) (Or.inl hty)
+
+theorem users_final (u : Nat) : ∀ (evs : List Ev) (s : St), s.users.contains u = false →
+    (final s evs).users.contains u = false := by
+  intro evs
+  induction evs with
+  | nil => intro s h; exact h
+  | cons e es ih =>
+    intro s h
+    apply ih
+    cases hc : (step s e).1.users.contains u with
+    | false => rfl
+    | true => rw [step_users_subset s e u hc] at h; cases h
+
+
+
+/-- invariant for the access token presented to the API logout: its account is gone, or it has a
+revocation row and every ACCESS row with its `jti` is revoked and cannot be pruned -/
+def AccessVoided (s : St) (t : Tok) : Prop :=
+  s.users.contains t.owner = false ∨
+    ((∃ r ∈ s.rows, r.jti = t.jti ∧ r.typ = .access ∧ r.owner = t.owner) ∧
+     ∀ r ∈ s.rows, r.jti = t.jti → r.typ = .access → r.revoked = true ∧ r.expires = none)
+
+theorem mem_revokeAll_of_mem {rows : List Row} {u : Nat} {r0 : Row} (h : r0 ∈ rows) :
+    ∃ r ∈ revokeAll rows u, r.jti = r0.jti ∧ r.typ = r0.typ ∧ r.owner = r0.owner := by
+  refine ⟨_, List.mem_map.2 ⟨r0, h, rfl⟩, ?_⟩
+  by_cases ho : r0.owner = u <;> simp [ho]
+
+theorem mem_revokeAccess_of_mem {rows : List Row} {j u : Nat} {r0 : Row} (h : r0 ∈ rows) :
+    ∃ r ∈ revokeAccess rows j u, r.jti = r0.jti ∧ r.typ = r0.typ ∧ r.owner = r0.owner := by
+  unfold revokeAccess
+  split
+  · refine ⟨_, List.mem_map.2 ⟨r0, h, rfl⟩, ?_⟩
+    by_cases hc : (r0.jti == j && r0.typ == TokType.access) = true <;> simp [hc]
+  · exact ⟨r0, List.mem_cons_of_mem _ h, rfl, rfl, rfl⟩
+
+theorem accessVoided_step (s : St) (t : Tok) (e : Ev) (h : AccessVoided s t) :
+    AccessVoided (step s e).1 t := by
+  rcases h with h | ⟨⟨r0, h0, j0, t0, o0⟩, hall⟩
+  · left
+    cases hc : (step s e).1.users.contains t.owner with
+    | false => rfl
+    | true => rw [step_users_subset s e _ hc] at h; cases h
+  · have hall' : ∀ r ∈ (step s e).1.rows, r.jti = t.jti → r.typ = .access →
+        r.revoked = true ∧ r.expires = none := by
+      intro r hr hj ht
+      rcases step_rows s e r hr with ⟨r1, h1, e1, _, e3, e4, e5⟩ | ⟨hrf, _⟩ | ⟨_, hrv, hex⟩
+      · have := hall r1 h1 (e1 ▸ hj) (e3 ▸ ht)
+        exact ⟨e5 this.1, e4.trans this.2⟩
+      · rw [hrf] at ht; cases ht
+      · exact ⟨hrv, hex⟩
+    have hexp : r0.expires = none := (hall r0 h0 j0 t0).2
+    cases e with
+    | login u =>
+      right
+      refine ⟨?_, hall'⟩
+      simp only [step]
+      split
+      · exact ⟨r0, List.mem_cons_of_mem _ h0, j0, t0, o0⟩
+      · exact ⟨r0, h0, j0, t0, o0⟩
+    | refreshAccess t2 =>
+      right
+      refine ⟨?_, hall'⟩
+      simp only [step]
+      split <;> exact ⟨r0, h0, j0, t0, o0⟩
+    | apiLogout t2 =>
+      right
+      refine ⟨?_, hall'⟩
+      simp only [step]
+      split
+      · obtain ⟨r1, h1, a1, a2, a3⟩ := mem_revokeAll_of_mem (u := t2.owner) h0
+        obtain ⟨r2, h2, b1, b2, b3⟩ := mem_revokeAccess_of_mem (j := t2.jti) (u := t2.owner) h1
+        exact ⟨r2, h2, b1.trans (a1.trans j0), b2.trans (a2.trans t0), b3.trans (a3.trans o0)⟩
+      · exact ⟨r0, h0, j0, t0, o0⟩
+    | htmlLogout c =>
+      right
+      refine ⟨?_, hall'⟩
+      simp only [step]
+      split
+      · obtain ⟨r1, h1, a1, a2, a3⟩ := mem_revokeAll_of_mem (u := c.owner) h0
+        exact ⟨r1, h1, a1.trans j0, a2.trans t0, a3.trans o0⟩
+      · exact ⟨r0, h0, j0, t0, o0⟩
+    | deleteUser u =>
+      by_cases hu : u = t.owner
+      · left
+        subst hu
+        simp [step]
+      · right
+        refine ⟨?_, hall'⟩
+        simp only [step]
+        refine ⟨r0, List.mem_filter.2 ⟨h0, ?_⟩, j0, t0, o0⟩
+        simp [o0]; exact fun h => hu h.symm
+    | restart =>
+      right
+      refine ⟨?_, hall'⟩
+      simp only [step]
+      exact ⟨r0, List.mem_filter.2 ⟨h0, by simp [hexp]⟩, j0, t0, o0⟩
+    | tick n => right; exact ⟨⟨r0, h0, j0, t0, o0⟩, hall'⟩
+
+theorem accessVoided_final (t : Tok) : ∀ (evs : List Ev) (s : St), AccessVoided s t →
+    AccessVoided (final s evs) t := by
+  intro evs
+  induction evs with
+  | nil => intro s h; exact h
+  | cons e es ih => intro s h; exact ih _ (accessVoided_step s t e h)
+
+
+end DashLive.Life
